@@ -6,6 +6,70 @@ from report import Result
 from rules import c12, c13, cachelib as cl
 
 
+def refill_bodies(P):
+    """bodies that fill an iteration batch: they push (key, value) pairs onto a VecDeque and advance a cursor's shard_index"""
+    out = []
+    for b in P.bodies.values():
+        if not (b.id.startswith("fibre_cache::iter::") or b.id.startswith("fibre_cache::<iter::")):
+            continue
+        pushes = [e for e in b.calls() if e.method == "push_back"]
+        advances = [e for e in b.events if e.kind == "assign" and b.path_of_place(e.data["p"]).endswith("shard_index")]
+        if pushes and advances:
+            out.append((b, pushes))
+    return out
+
+
+def clause3(P, res):
+    rid = "C17-3"
+    res.rule(rid, "a refill ends only when the batch is full or the shards are exhausted: Iter::next / IterStream::poll_next treat an empty buffer after a refill as "
+                  "the end of the iteration, so every return of a refill body must be dominated by (a) the finished flag read true, (b) the edge of a comparison on "
+                  "which the cursor's shard_index has reached the shard count, or (c) the edge on which the batch buffer's len() has reached batch_size — any other "
+                  "way out (a scan budget, a time limit) truncates the iteration in front of live entries")
+    bodies = refill_bodies(P)
+    for b, pushes in bodies:
+        key = b.id
+        bufpaths = {b.path_of_operand(e.args[0]) for e in pushes}
+        done = []
+        for blk in range(len(b.blocks)):
+            if b.is_cleanup(blk):
+                continue
+            s = b.switch_source(blk)
+            if not s:
+                continue
+            if s["kind"] == "place" and s["path"].endswith("finished"):
+                done.extend(b.edges_by_label(blk).get("false" if s.get("neg") else "true", []))
+            elif s["kind"] == "cmp" and s["op"] in ("Lt", "Ge", "Gt", "Le"):
+                pa, pb = b.path_of_operand(s["a"]), b.path_of_operand(s["b"])
+                da, db = b.producer_call(s["a"]), b.producer_call(s["b"])
+                a_idx, b_idx = pa.endswith("shard_index"), pb.endswith("shard_index")
+                a_len = da is not None and da.method == "len" and b.path_of_operand(da.args[0]) in bufpaths and pb.endswith("batch_size")
+                b_len = db is not None and db.method == "len" and b.path_of_operand(db.args[0]) in bufpaths and pa.endswith("batch_size")
+                if not (a_idx or b_idx or a_len or b_len):
+                    continue
+                op = s["op"] if (a_idx or a_len) else {"Lt": "Gt", "Gt": "Lt", "Le": "Ge", "Ge": "Le"}[s["op"]]     # normalised: progress <op> limit
+                if op == "Lt":
+                    lab = "false"
+                elif op == "Ge":
+                    lab = "true"
+                else:
+                    continue     # `<=` / `>` against the limit is not the "reached" edge
+                if s.get("neg"):
+                    lab = "true" if lab == "false" else "false"
+                done.extend(b.edges_by_label(blk).get(lab, []))
+        exits = set(b.exits())
+        reach = b.pos_reach_set((0, 0), removed_edges=frozenset(done), strict=False)
+        if not done:
+            res.violated(rid, key, "refill body has no recognisable termination test (shard_index vs shard count, buffer len vs batch_size, finished)", where=f"{b.file}:{b.line}")
+        elif reach & exits:
+            res.violated(rid, key, f"a path through {b.id} returns although neither the batch is full nor the shards are exhausted nor `finished` was set: the caller reads the "
+                         "empty batch as end of iteration and the remaining live entries are never yielded", where=f"{b.file}:{b.line}",
+                         witness=[f"done edge {e}" for e in done])
+        else:
+            res.holds(rid, key, f"every return is behind one of {len(done)} batch-full / shards-exhausted / finished edges", where=f"{b.file}:{b.line}")
+    if len(bodies) < 2:
+        res.violated(rid, "refill-bodies", f"expected the sync and the async refill body, found {len(bodies)}")
+
+
 def run(P, ctx):
     res = Result("C17")
     res.extra["explanation"] = ("Expiry gate on everything iterators and snapshots yield, and restore-is-an-insertion (cost accounted, policy informed, same shard index "
@@ -27,6 +91,7 @@ def run(P, ctx):
             res.holds("C17-1", bid, "values come from fetch() (expiry-gated)", where=viaf[0].loc)
         else:
             res.unclassified("C17-1", bid, "no value source recognised")
+    clause3(P, res)
     rid = "C17-2"
     res.rule(rid, "restore is an insertion like any other: the snapshot-restore path accounts the restored cost in current_cost, announces every restored entry to "
                   "its shard's eviction policy, and places entries with the same shard-index function that lookups use")
